@@ -113,7 +113,13 @@ def uf_search(n, max_states=None, unions=None):
     if unions is not None:
         # restricted union alphabet (a declared bound, not a symmetry claim); queries stay complete
         ops = [("union", i, j) for i, j in unions] + [o for o in ops if o[0] != "union"]
-    init = UnionFind(n)
+    try:
+        init = UnionFind(n)
+    except Exception as ex:  # noqa: BLE001
+        r["n"] += 1
+        r["outcomes"]["constructor:raised"] += 1
+        r["violations"].append({"function": "UnionFind", "kind": "reference_mismatch", "witness": {"n": n, "history": [], "op": None}, "detail": f"UnionFind({n}) raised {type(ex).__name__}: {ex}; the reference model is the partition of {n} singletons"})
+        return r
     part0 = frozenset(frozenset([i]) for i in range(n))
     s0 = (freeze(init), part0)
     seen = {s0: ()}
@@ -234,12 +240,18 @@ def ft_search(n, init, depth, deltas=(1, -1, 3)):
     from solvor.utils.data_structures import FenwickTree
 
     r = new_result()
-    if init is None:
-        obj0 = FenwickTree(n)
-        ref0 = (0,) * n
-    else:
-        obj0 = FenwickTree(list(init))
-        ref0 = tuple(init)
+    try:
+        if init is None:
+            obj0 = FenwickTree(n)
+            ref0 = (0,) * n
+        else:
+            obj0 = FenwickTree(list(init))
+            ref0 = tuple(init)
+    except Exception as ex:  # noqa: BLE001
+        r["n"] += 1
+        r["outcomes"]["constructor:raised"] += 1
+        r["violations"].append({"function": "FenwickTree", "kind": "reference_mismatch", "witness": {"n": n, "init": list(init) if init is not None else None, "history": [], "op": None}, "detail": f"FenwickTree({n if init is None else list(init)}) raised {type(ex).__name__}: {ex}; the reference model is an array of {n} entries"})
+        return r
     viol = []
     if init is not None:
         # environment events: the caller goes on using the list it passed in (changes an entry, builds a second tree from
@@ -347,6 +359,8 @@ def uf_scripts(n):
     out = {}
     out["chain_ascending"] = [(i, i + 1) for i in range(n - 1)]
     out["chain_descending"] = [(i + 1, i) for i in range(n - 2, -1, -1)]
+    out["chain_new_element_first"] = [(i, i - 1) for i in range(1, n)]  # the growing component is always the second argument
+    out["chain_new_element_first_descending"] = [(i, i + 1) for i in range(n - 2, -1, -1)]
     out["star"] = [(0, i) for i in range(1, n)] + [(n - 1, 1)]
     bino, rev = [], []
     step = 1
@@ -374,7 +388,7 @@ def _long_chunk(params, lo, hi):
                 script = uf_scripts(n)[name]
                 o = UnionFind(n)
                 label = list(range(n))
-                checkpoints = {len(script) - 1} | {k for k in (1, 2, 4, 8, 16, 32, 64, 128, 256) if k < len(script)}
+                checkpoints = {len(script) - 1} | ({k for k in (1, 2, 4, 8, 16, 32, 64, 128, 256) if k < len(script)} if n < 1000 else set())
                 for k, (a, b) in enumerate(script):
                     merged = label[a] != label[b]
                     ans = gcall(lambda: o.union(a, b), 5.0, 5_000_000)
@@ -429,6 +443,8 @@ def long_cases():
     for n in (70, 300):
         for name in uf_scripts(n):
             out.append(("UnionFind", n, name))
+    for name in ("chain_ascending", "chain_descending", "chain_new_element_first", "chain_new_element_first_descending"):  # 1499 unions with no read in between: depth beyond the interpreter's recursion limit if ranks fail
+        out.append(("UnionFind", 1500, name))
     for n in (64, 65, 130, 257):
         out.append(("FenwickTree", n, "from_list"))
         out.append(("FenwickTree", n, "from_size"))
@@ -454,7 +470,7 @@ TINY = 2.0**-40
 
 
 def _ft_cases(nmax, depth):
-    cases = [(n, None, depth) for n in range(1, nmax + 1)]
+    cases = [(0, None, depth), (0, (), depth)] + [(n, None, depth) for n in range(1, nmax + 1)]  # size 0: the empty array, both constructors
     for n in range(1, nmax + 1):
         for init in itertools.product((0, 1, -2), repeat=n):
             cases.append((n, init, depth))
@@ -496,7 +512,7 @@ def _merge(out, r):
 
 
 def jobs(tier, seed):
-    uf_ns = [7, 6, 5, 4, 3, 2, 1] if tier == "thorough" else [6, 5, 4, 3, 2, 1]
+    uf_ns = [7, 6, 5, 4, 3, 2, 1, 0] if tier == "thorough" else [6, 5, 4, 3, 2, 1, 0]
     uf_ns = (["deep8", "deep8r"] if tier == "thorough" else ["deep8q", "deep8r"]) + uf_ns  # n = 8 with 14 declared union pairs: trees of depth 3 (rank 3), every query in every state
     depth = 5 if tier == "thorough" else 4
     ft = _ft_cases(5, depth)
